@@ -27,6 +27,10 @@ macro_rules! cfg_huge {
 }
 
 fn main() {
+    vengine::on_worker_stack(real_main);
+}
+
+fn real_main() {
     let mut run = Run::from_args("C01", "c01");
     vcore::core_configs!(cfg, run);
     vcore::huge_configs!(cfg_huge, run);
